@@ -113,6 +113,8 @@ static H3Error run_scen(const Scen *s, uint64_t *dig) {
             if (s->c / 12 == 3 && res < 15) cellToCenterChild(in[2], res + 1, &in[2]);   /* mixed resolutions */
             if (s->c / 12 == 4) in[m - 1] = 0, m--;                                      /* incomplete: fewer rounds */
             if (s->c / 12 == 5) { in[1] = in[0]; }                                       /* duplicate inside */
+            if (s->c / 12 == 6 && res >= 2) cellToParent(in[2], res - 2, &in[2]);        /* a cell two levels coarser among the others */
+            if (s->c / 12 == 7 && res >= 3) { cellToParent(in[m - 1], res - 3, &in[m - 1]); H3Index t = in[0]; in[0] = in[m - 1]; in[m - 1] = t; }   /* three levels coarser, first */
             ARM(); r = compactCells(in, out, m); DISARM(); h = fnv(h, out, m * 8); free(in); free(out); break; }
         case 2: { /* gridDisk: a=res, b=k, c=origin selector */
             H3Index o = s->c < 100 ? cell_near_pentagon(s->a, s->c, s->c % 4) : s->c < 200 ? far_cell(s->a, s->c) : (s->c == 200 ? 0x89283470c3fffffULL : s->c == 201 ? 0x80fffffffffffffULL : s->c == 202 ? 0x820857fffffffffULL : vt_mutate_word(far_cell(s->a, s->c)));
@@ -157,7 +159,7 @@ static H3Error run_scen(const Scen *s, uint64_t *dig) {
 static void build_scenarios(int quick) {
     for (int r = 0; r <= 15; r++) getPentagons(r, PENT[r]);
     /* compactCells: 0..3 rounds, pentagon and hexagon roots, error exits */
-    for (int up = 0; up <= (quick ? 2 : 3); up++) for (int v = 0; v < 72; v += (quick ? 5 : 1)) { int res = 3 + (v % 9); if (res - up < 0) continue; add("compactCells", 1, res, up, v); }
+    for (int up = 0; up <= (quick ? 2 : 3); up++) for (int v = 0; v < 96; v += (quick ? 5 : 1)) { int res = 3 + (v % 9); if (res - up < 0) continue; add("compactCells", 1, res, up, v); }
     add("compactCells", 1, 0, 0, 2);
     /* large inputs (more than 512 / 4096 cells): 4 and 5 levels of a hexagon and of a pentagon, complete and with a leaf missing */
     for (int v = 0; v < 4; v++) { add("compactCells", 1, 6 + v, 4, v % 2 ? 1 : 2); add("compactCells", 1, 6 + v, 4, v % 2 ? 49 : 50); }
